@@ -441,6 +441,37 @@ pub fn directed(names: &[String]) -> Vec<Trace> {
         steps.push(rec("a change of several preferences in the preference files"));
         v.push(mk(format!("pref-files-change-{}", name), steps));
     }
+    // 2f. every pool expression (incl. the regression section) through every output, navigation and routing call, under
+    //     every braille code; and its own output fed back
+    for (ci, code) in pools::BRAILLE_CODES.iter().enumerate() {
+        let mut steps = vec![Step::Call(Op::SetRulesDir(MOUNT_A.into())), Step::Call(Op::SetPref("BrailleCode".into(), code.to_string()))];
+        if ci % 2 == 1 {
+            steps.push(Step::Call(Op::SetPref("SpeechStyle".into(), "SimpleSpeak".into())));
+        }
+        if ci % 3 == 2 {
+            steps.push(Step::Call(Op::SetPref("TTS".into(), "SSML".into())));
+            steps.push(Step::Call(Op::SetPref("Bookmark".into(), "true".into())));
+        }
+        for e in 0..pools::VALID_EXPRS.len() {
+            steps.push(Step::Call(Op::SetMathml(ExprRef::Pool(e))));
+            steps.push(Step::Call(Op::Speech));
+            steps.push(Step::Call(Op::Braille(IdRef::Empty)));
+            steps.push(Step::Call(Op::Overview));
+            steps.push(Step::Call(Op::Cmd("ZoomIn".into())));
+            steps.push(Step::Call(Op::NavBraille));
+            steps.push(Step::Call(Op::Cmd("MoveNext".into())));
+            steps.push(Step::Call(Op::Braille(IdRef::Nav)));
+            steps.push(Step::Call(Op::BraillePos));
+            steps.push(Step::Call(Op::NodeFromPos(PosRef::Abs(1))));
+            steps.push(Step::Call(Op::Cmd("DescribeCurrent".into())));
+            if e >= pools::REGRESSION_FROM || e % 4 == ci % 4 {
+                steps.push(Step::Call(Op::SetMathml(ExprRef::Feedback)));
+                steps.push(Step::Call(Op::Speech));
+                steps.push(Step::Call(Op::Braille(IdRef::Empty)));
+            }
+        }
+        v.push(mk(format!("every-pool-expression-{}", code), steps));
+    }
     // 2e. every documented value of the style preferences over expressions that stress the places where they are consulted
     //     (number words for huge numbers, fractions, roots, powers, tables, sets, primes, chemistry); both speech styles
     for style in pools::SPEECH_STYLES {
